@@ -181,7 +181,9 @@ def main():
         gh = 10 ** rng.uniform(-1.5, 0.1)
         dt = gh / g
         Nt = int(rng.randint(5, 60))
-        ta = qr.TimeAxis(0.0, Nt, dt)
+        # (the axis of the propagator need not start at zero)
+        t0 = (0.0, 3.0, -2.0, 0.0)[s % 4] * dt
+        ta = qr.TimeAxis(t0, Nt, dt)
         p0 = rng.rand(N)
         p0 /= p0.sum()
         prop = PopulationPropagator(ta, rate_matrix=rm)
@@ -211,7 +213,7 @@ def main():
             P = T.dot(P)
             growth = max(growth, numpy.abs(P).sum(axis=0).max())
         bound = Nt * local * growth
-        exact = numpy.array([scipy.linalg.expm(K * t).dot(p0)
+        exact = numpy.array([scipy.linalg.expm(K * (t - t0)).dot(p0)
                              for t in ta.data])
         err = float(numpy.abs(pops - exact).sum(axis=1).max())
         sums = float(numpy.abs(pops.sum(axis=1) - 1.0).max())
@@ -252,7 +254,7 @@ def main():
                 growth2 = max(growth2, numpy.abs(P2).sum(axis=0).max())
             bound2 = Nt * (g2 * dt) ** (L + 1) / math.factorial(L + 1) * \
                 math.exp(g2 * dt) * growth2
-            exact2 = numpy.array([scipy.linalg.expm(K2 * t).dot(
+            exact2 = numpy.array([scipy.linalg.expm(K2 * (t - t0)).dot(
                 numpy.asarray(p0, dtype=float)) for t in ta.data])
             err2 = float(numpy.abs(pops2 - exact2).sum(axis=1).max())
             ck.case("matches-expm-after-edit", ("num", s),
@@ -278,7 +280,7 @@ def main():
             nsub = (Nt - 1 - shift) // mult
             if nsub < 2:
                 continue
-            ts = qr.TimeAxis(shift * dt, nsub, mult * dt)
+            ts = qr.TimeAxis(t0 + shift * dt, nsub, mult * dt)
             if not ts.is_subset_of(ta):
                 continue             # float round-off in the axis test
             # also through the entry that returns the perturbative orders
@@ -308,7 +310,7 @@ def main():
         # the propagator (and the rate matrix object it was given) after
         # the propagation matrices were requested: same dynamics as before
         pops3 = numpy.array(prop.propagate(p0in))
-        exact3 = numpy.array([scipy.linalg.expm(K * t).dot(
+        exact3 = numpy.array([scipy.linalg.expm(K * (t - t0)).dot(
             numpy.asarray(p0, dtype=float)) for t in ta.data])
         g3 = float(numpy.abs(K).sum(axis=0).max())
         T3 = sum(numpy.linalg.matrix_power(K * dt, l) / math.factorial(l)
